@@ -64,6 +64,15 @@ Assign ==
        IN /\ NoRepeat(idxs)
           /\ in' = [NoIn EXCEPT !.fam = "assign", !.v = v, !.idxs = idxs, !.mode = mode, !.rhs = rhs, !.cfg = a]
           /\ out' = r1
+\* assignment through the on-disk handle with a tolerance (nearest label within tol)
+AssignTol ==
+  /\ ph = 0 /\ ph' = 1
+  /\ \E q \in 1..11 : \E t \in {1, 2, 100000} : \E aslist \in BOOLEAN :
+       LET a == FileVars["m"]
+           ix == IF aslist THEN IxLi(<<q>>) ELSE IxSc(q)
+           rhs == MkRhs(<<>>, "f", 900)
+       IN /\ in' = [NoIn EXCEPT !.fam = "assign", !.v = "m", !.idxs = <<ix>>, !.mode = "label", !.tol = <<t>>, !.rhs = rhs, !.cfg = a]
+          /\ out' = Put(a, <<ix>>, "label", <<t>>, rhs)
 \* two assignments in a row on variable a, then a full read
 Assign2 ==
   /\ ph = 0 /\ ph' = 1
@@ -95,7 +104,7 @@ Multi ==
        /\ in' = [NoIn EXCEPT !.fam = "multi", !.cfg = [nf |-> nf, rel |-> rel, axis |-> ax, align |-> al, sort |-> so, keys |-> keys]]
        \* only the x axes differ between files: joining along x itself needs no alignment
        /\ out' = [ok |-> (rel = "equal" \/ al \/ ax = "x"), val |-> <<>>, err |-> IF rel = "equal" \/ al \/ ax = "x" THEN "" ELSE "ValueError"]
-Next == (Read \/ ReadTol \/ Assign \/ Assign2 \/ AppendUnl \/ Multi) /\ (Emit => PrintT(ToJson([op |-> "ondisk", in |-> in', out |-> out'])))
+Next == (Read \/ ReadTol \/ Assign \/ AssignTol \/ Assign2 \/ AppendUnl \/ Multi) /\ (Emit => PrintT(ToJson([op |-> "ondisk", in |-> in', out |-> out'])))
 Spec == Init /\ [][Next]_vars
 Sane == (ph = 1 /\ in.fam \in {"read", "assign"} /\ out.ok) => WellFormed(out.val)
 =============================================================================
